@@ -20,7 +20,7 @@ variable {α : Type}
 def ulen (c : StageCfg) (s0 : StageSt) (u : Nat) : Nat :=
   match c.kind with
   | .half => c.prePost - 1
-  | .clocked => c.taps
+  | .clocked => c.prePost + 1
   | .dft => (c.dftLen - (dctl c s0 u).2.1 + c.L - 1) / c.L
 
 theorem unitSem_len (K : Kern α) (c : StageCfg) (s0 : StageSt) (u : Nat) : (unitSem K c s0).len u = ulen c s0 u := by
